@@ -188,6 +188,14 @@ def gen_case(rng, quick=True):
                 eattrs.append({"name": name, "dense": False, "default": default, "type": ty,
                                "set": [[i, rv()] for i in idx]})
     cfg = rng.choice([[True, True]] * 7 + [[False, True], [True, False], [False, False]])
+    if cells and not cfg[0] and rng.random() < 0.75:
+        # completion off: supply the cells' faces (once each) so that construction is possible
+        have = {tuple(sorted(f)) for f in faces}
+        for c in cells:
+            for f in (TET_T(c) if len(c) == 4 else HEX_T(c)):
+                if tuple(sorted(f)) not in have:
+                    have.add(tuple(sorted(f)))
+                    faces.append(list(f))
     dim = None if rng.random() < 0.85 else rng.randint(0, 3)
     vdim = 3
     routes = ["list", "tuple", "numpy"]
@@ -199,6 +207,7 @@ def gen_case(rng, quick=True):
         if rng.random() < 0.4 and not cells:
             vdim = rng.choice([1, 2])
             verts = [v[:vdim] for v in verts]
+            routes = ["from_arrays"]   # raw containers are given 3-D points; only from_arrays pads
     rewraps = rng.choice([0, 1, 1, 2])
     case = {"kind": kind, "verts": verts, "edges": edges, "faces": faces, "cells": cells, "eattrs": eattrs,
             "cfg": cfg, "dim": dim, "routes": routes, "rewraps": rewraps, "malformed": malformed or not wf,
